@@ -41,6 +41,8 @@ static inline std::string gen_addr(Rng &r, int want_mod = -1, int maxlen = 64)
     } else
         len = (int)r.range(1, maxlen);
     if(len > maxlen) len -= 4;
+    // (any address: a few spell almost, or more than, the bundle marker)
+    if(want_mod < 0 && r.chance(0.01)) { static const char *NB[] = {"#bundles", "#bundle/x", "#bundle2", "#bundl", "/#bundle", "#bundle/gain", "#bundlE", "#bundle#"}; return NB[r.below(8)]; }
     std::string s;
     bool slash = r.chance(0.85);
     for(int i = 0; i < len; ++i) {
